@@ -70,6 +70,21 @@ Keys of findings name the family and the kind of failure; three call-site keys e
 defects found on the pinned tree: `cdfcache-one-dict-shared-by-all-parameters` (set in
 props/C02.py), `BoundedEigenvector:isclose-band-not-in-reported-density` and
 `BoundedEigenvector:nan-density-outside-box`.
+
+Settings histories (units of kind `settings-history`, see the section of that name)
+-----------------------------------------------------------------------------------
+The same comparisons on real objects *after* every path that changes the settings a jump
+uses: Chain.reset_proposals (once, twice, after re-adaptation, plus one more step), set_state
+with the state of another instance (into a fresh and into an adapted one), assignment to
+std / cov / boundaries / kappa / successive / eigvals + eigvects, set_jump_interval (walk
+through the whole schedule), copy.deepcopy / pickle; the metamorphic form (same current
+settings by construction, other history => same logpdf / pdf to 1e-12, same jump from the
+same scripted draws); and interleaved queries (the same point pairs asked of one live object
+before and after every state-changing step, each answer against a never-queried object with
+the same current settings).  The law is always derived from the object's own jump() under
+scripted draws.  There every mismatch is a finding, symmetric family or not; keys
+`<family>:stale-density-after-<reset|setter|set-state|copy|jump-interval|adaptation>`
+(a mismatch that a freshly constructed object shows as well keeps its ordinary key).
 """
 import contextlib
 import copy
@@ -1565,6 +1580,7 @@ HIST_GROUP = {
     'setter-std': 'setter', 'setter-cov': 'setter', 'setter-boundaries': 'setter', 'setter-kappa': 'setter',
     'setter-successive': 'setter', 'setter-eigen': 'setter', 'setter-cov-eigen': 'setter',
     'jump-interval': 'jump-interval', 'pickle': 'copy', 'deepcopy': 'copy',
+    'interleaved-queries': None,       # named after the step that preceded the mismatch, see OP_GROUP
 }
 KNOWN_SITE_KEYS = ('BoundedEigenvector:isclose-band-not-in-reported-density',
                    'BoundedEigenvector:nan-density-outside-box')
@@ -1588,7 +1604,7 @@ def history_kinds(fam):
         ks += ['setter-eigen', 'setter-cov-eigen']
     if fam in SPHERE:
         ks += ['setter-kappa']
-    ks += ['jump-interval', 'pickle', 'deepcopy']
+    ks += ['jump-interval', 'pickle', 'deepcopy', 'interleaved-queries']
     return ks
 
 
@@ -1665,31 +1681,51 @@ def _settings(p):
 
 
 def _live_doms(p, kind, names, doms):
+    """Where from-points may be drawn: inside the bounds the object has now (integer families: the
+    integers inside them, whether or not the cached bounds are integers)."""
     out = {}
     for i, nm in enumerate(names):
         if getattr(p, '_lowerbnd', None) is not None:
-            conv = int if kind == 'intbox' else float
-            out[nm] = (conv(p._lowerbnd[i]), conv(p._upperbnd[i]))
+            if kind == 'intbox':
+                out[nm] = (int(math.ceil(float(p._lowerbnd[i]))), int(math.floor(float(p._upperbnd[i]))))
+            else:
+                out[nm] = (float(p._lowerbnd[i]), float(p._upperbnd[i]))
         else:
             out[nm] = doms[nm]
     return out
 
 
-def _new_doms(kind, doms, names, rng):
+def _new_doms(kind, doms, names, rng, inside=None):
+    """Other bounds for the `boundaries` setter; `inside`: a point that has to stay inside them.
+    Integer families get non-integer bounds as well (the class rounds them outward, in the
+    constructor and in the setter: the twin is built by the constructor with the same numbers)."""
     out = {}
     for nm in names:
         lo, hi = doms[nm]
         if kind == 'intbox':
             lo, hi = int(math.floor(lo)), int(math.ceil(hi))
-            # (integers: the constructor rounds non-integer bounds outward, the inherited setter is
-            # documented for the bounded normal only and stores what it is given)
             nlo, nhi = lo + rng.randint(-2, 1), hi + rng.randint(-1, 2)
+            if inside is not None:
+                v = float(inside[nm])
+                nlo, nhi = min(nlo, int(math.floor(v)) - 1), max(nhi, int(math.ceil(v)) + 1)
             if nhi - nlo < 2:
                 nlo, nhi = lo - 1, hi + 1
-            out[nm] = (nlo, nhi)
+            r = rng.random()
+            if r < 0.3:
+                out[nm] = (nlo - 0.5, nhi + 0.5)
+            elif r < 0.55:
+                out[nm] = (nlo + 0.25, nhi - 0.25)
+            elif r < 0.7:
+                out[nm] = (nlo + 0.5, nhi)
+            else:
+                out[nm] = (nlo, nhi)
         else:
             w = hi - lo
-            out[nm] = (round(lo - rng.uniform(-0.2, 0.5) * w, 3), round(hi + rng.uniform(-0.2, 0.5) * w, 3))
+            nlo, nhi = round(lo - rng.uniform(-0.2, 0.5) * w, 3), round(hi + rng.uniform(-0.2, 0.5) * w, 3)
+            if inside is not None:
+                v = float(inside[nm])
+                nlo, nhi = min(nlo, v - 0.05), max(nhi, v + 0.05)
+            out[nm] = (nlo, nhi)
     return out
 
 
@@ -2173,7 +2209,10 @@ def _history_law(fam, R, kind, names, doms, rng, unit, stats):
             symmetric_reported(fam, R, [(x, y)], mine, stats)
             pairs = [(y, x), (x, y), (x, x)]
     finally:
-        stats['_strict'] = keep
+        if keep is None:
+            stats.pop('_strict', None)
+        else:
+            stats['_strict'] = keep
         for k_ in ('_pending', '_disp'):
             stats.pop(k_, None)
     return mine, x, pairs
@@ -2228,9 +2267,248 @@ def settings_history_unit(unit, findings, stats):
         findings.append((key, text, payload))
 
 
+# ---- interleaved queries: query -> settings change through ANY path -> the same queries again --------
+# Several families memoise between queries (cell probabilities of the discrete families keyed by the
+# scale they were computed for, the chord of the bounded eigenvector family keyed by the point pair, the
+# direction and step of the eigenvector families).  A memo that does not notice a change of settings
+# answers the second query with the density of the *earlier* settings.  The unit below keeps ONE live
+# object (attached to a real chain), asks it the same pool of point pairs before and after every
+# state-changing step (real adaptation steps, which update in place or rebind, reset_proposals, the
+# setters, set_state from another chain) and compares each answer with the answer of a never-queried
+# object that has the same current settings, built through the constructor (+ set_state where the
+# state dictionary carries the settings).  Run for every family, memoising or not.
+
+OP_GROUP = {'step': 'adaptation', 'reset': 'reset', 'std': 'setter', 'cov': 'setter', 'boundaries': 'setter',
+            'successive': 'setter', 'kappa': 'setter', 'eigen': 'setter', 'set_state': 'set-state'}
+
+
+def _twin_now(fam, R, ctx):
+    """A never-queried object with the current settings of R."""
+    cls = F.FAMILIES[fam][0]
+    names = ctx['names']
+    succ = {k: bool(v) for k, v in R.successive.items()} if fam in DISCRETE else None
+    if fam in F.ADAPTIVE or fam in EIGEN:
+        T = F.make(fam, names, ctx['doms'], random.Random(ctx['seed']), window=ctx['window'], successive=succ)
+        T.set_state(R.state)
+        return T
+    if fam in PERPARAM:
+        if ctx.get('full') is not None:
+            return cls(names, cov=ctx['full'].copy())
+        return _with_cov(fam, names, ctx['doms'], ctx['var'], succ)
+    return cls(names[0], names[1], kappa=ctx['kappa'])
+
+
+def interleaved_unit(unit, findings, stats):
+    fam = unit['family']
+    rng = random.Random(unit['seed'])
+    cls, kind, lo, hi = F.FAMILIES[fam]
+    n = max(lo, min(hi, unit['nparams']))
+    names = ['x%d' % i for i in range(n)]
+    doms = {p: F.domain_for(kind, rng, i) for i, p in enumerate(names)}
+    start = {p: F.start_value(kind, doms[p], rng, i if kind == 'sphere' else 0) for i, p in enumerate(names)}
+    adaptive = fam in F.ADAPTIVE
+    seed = rng.randrange(1 << 30)
+    window = 40
+    pats = ['AR', 'A', 'R', 'AAR', 'RRA', 'ARR']
+    pat = rng.choice(pats)
+    ctx = dict(names=names, kind=kind, doms=dict(doms), seed=seed, window=window)
+    steps = []
+    # the object: non-adaptive families with settings this unit knows exactly (for the constructor of the twin)
+    if not adaptive and fam in PERPARAM:
+        ctx['var'] = numpy.array([round(rng.uniform(0.6, 4.0), 2) if kind in ('int', 'intbox') else
+                                  round(rng.uniform(0.05, 0.6), 3) for _ in names])
+        succ = {p: rng.random() < 0.5 for p in names} if fam in DISCRETE else None
+        R = _with_cov(fam, names, doms, ctx['var'], succ)
+    elif not adaptive and fam in SPHERE:
+        ctx['kappa'] = float(round(rng.uniform(2, 30), 3))
+        R = cls(names[0], names[1], kappa=ctx['kappa'])
+    else:
+        R = F.make(fam, names, doms, random.Random(seed), window=window)
+    ch = Chain(names, forcing.ForcedModel(pat), [R], bit_generator=seed % 100003 + 11)
+    ch.start_position = dict(start)
+    dch, donor = _hchain(fam, names, doms, seed, pattern=rng.choice([q for q in pats if q != pat]), window=window,
+                         start=start, successive=dict(R.successive) if fam in DISCRETE else None)
+    steps.append('%s over %s, domains %r, settings %r, attached to a real chain (forced pattern %s)' % (
+        cls.__name__, names, doms, _settings(R), pat))
+
+    def pool():
+        live = _live_doms(R, kind, names, ctx['doms'])
+        if fam in DISCRETE:
+            if kind == 'intbox':
+                a0 = int(math.floor(float(min(R._lowerbnd))))
+                a1 = int(math.ceil(float(max(R._upperbnd))))
+                a0, a1 = max(a0, -6), min(a1, 6)
+            else:
+                a0, a1 = -3, 3
+            out = [({nm: b for nm in names}, {nm: a for nm in names}) for a in range(a0, a1 + 1)
+                   for b in range(a0, a1 + 1)]
+            return out
+        return [(point(kind, live, names, rng), point(kind, live, names, rng)) for _ in range(4)]
+
+    P = pool()
+    if fam not in DISCRETE:
+        P = P + [(b, a) for a, b in P]
+    zs = [rng.gauss(0.0, 0.5) for _ in range(300)]
+    us = [rng.random() for _ in range(8)]
+
+    def ask(obj, eig_from, ind):
+        """the answers of `obj` itself (no copy: its memo is the point)"""
+        if fam in EIGEN:
+            gen = Gen(ScriptPlan(zs, us, ind))
+            gen.limit = 290
+            obj._verif_gen = gen
+            try:
+                out = obj.jump(eig_from)
+                # the order of the chain: reverse first
+                return [('jump', {k: float(v) for k, v in out.items()}), _safe(obj.logpdf, eig_from, out),
+                        _safe(obj.logpdf, out, eig_from), _safe(obj.logpdf, eig_from, out)]
+            except (Runaway, Exhausted):
+                return ['rejected every scripted draw']
+            finally:
+                obj.__dict__.pop('_verif_gen', None)
+        return [_safe(obj.logpdf, xi, given) for xi, given in P]
+
+    def same(a, b):
+        if isinstance(a, tuple) or isinstance(b, tuple):
+            return isinstance(a, tuple) and isinstance(b, tuple) and all(_num_same(a[1][k], b[1][k]) for k in a[1])
+        return _num_same(a, b)
+
+    # which steps exist for this family
+    ops = ['set_state']
+    if adaptive:
+        ops += ['reset', 'reset']
+    if fam in PERPARAM:
+        ops += ['std', 'cov']
+    if 'bounded' in fam:
+        ops += ['boundaries']
+    if fam in DISCRETE:
+        ops += ['successive']
+    if fam in SPHERE:
+        ops += ['kappa']
+    if fam in EIGEN:
+        ops += ['eigen']
+    rng.shuffle(ops)
+    seq = ['step'] * rng.randint(1, 3)
+    for op in ops:
+        seq.append(op)
+        seq.extend(['step'] * rng.randint(0, 2))
+    live = _live_doms(R, kind, names, ctx['doms'])
+    ask(R, point(kind, live, names, rng), 0)                   # the first round of queries
+    stats['interleaved_queries'] = stats.get('interleaved_queries', 0) + len(P)
+    bad = None
+    for op in seq:
+        if op == 'step':
+            ch.step()
+            text = 'one forced chain step'
+        elif op == 'reset':
+            ch.reset_proposals()
+            text = 'Chain.reset_proposals()'
+        elif op in ('std', 'cov'):
+            if not R.isdiagonal:
+                a = numpy.array([[rng.uniform(-0.5, 0.5) for _ in range(n)] for _ in range(n)])
+                full = a @ a.T + numpy.diag([rng.uniform(0.1, 0.5) for _ in range(n)])
+                full = (full + full.T) / 2
+                if n == 1:
+                    continue
+                R.cov = full.copy()
+                ctx['full'] = full
+                text = '.cov = %r' % full.tolist()
+            else:
+                var = numpy.array([round(rng.uniform(0.5, 6.0), 2) if kind in ('int', 'intbox') else
+                                   round(rng.uniform(0.02, 0.8), 3) for _ in names])
+                ctx['var'] = var
+                if op == 'std':
+                    R.std = var ** 0.5
+                    text = '.std = %r' % (var ** 0.5).tolist()
+                else:
+                    R.cov = var.copy()
+                    text = '.cov = %r' % var.tolist()
+        elif op == 'boundaries':
+            cur = _live_doms(R, kind, names, ctx['doms'])
+            nd = _new_doms(kind, cur, names, rng, inside=ch.current_position)   # the chain goes on from where it is
+            R.boundaries = {p: nd[p] for p in names}
+            ctx['doms'] = nd
+            text = '.boundaries = %r' % nd
+        elif op == 'successive':
+            flipped = {p: (not bool(v)) if rng.random() < 0.7 else bool(v) for p, v in R.successive.items()}
+            R.successive = dict(flipped)
+            text = '.successive = %r' % flipped
+        elif op == 'kappa':
+            kap = float(round(rng.uniform(2, 40), 3))
+            R.kappa = kap
+            ctx['kappa'] = kap
+            text = '.kappa = %r' % kap
+        elif op == 'eigen':
+            newcov = F._spd(n, rng)
+            vals, vecs = numpy.linalg.eigh(newcov)
+            lam = R.state.get('log_lambda', 0.0)
+            R.cov = newcov.copy()
+            R.eigvals, R.eigvects = (vals * numpy.exp(lam) if adaptive else vals), vecs
+            text = '.cov = %r; .eigvals, .eigvects = its eigenpairs (times the current global scale)' % newcov.tolist()
+        elif op == 'set_state':
+            for _ in range(rng.randint(2, 6)):
+                dch.step()
+            R.set_state(donor.state)
+            text = '.set_state(state of a second chain of the same constructor call after %d steps)' % int(donor._nsteps)
+        steps.append(text)
+        T = _twin_now(fam, R, ctx)
+        live = _live_doms(R, kind, names, ctx['doms'])
+        x = point(kind, live, names, rng)
+        ind = rng.randrange(n)
+        got, want = ask(R, x, ind), ask(T, x, ind)
+        stats['interleaved_queries'] = stats.get('interleaved_queries', 0) + len(got) + len(want)
+        stats['interleaved_steps'] = stats.get('interleaved_steps', 0) + 1
+        stats['interleaved_step:' + op] = stats.get('interleaved_step:' + op, 0) + 1
+        for j, (a, b) in enumerate(zip(got, want)):
+            if not same(a, b):
+                what = 'the scripted jump from %r and the density of its reverse / itself / its reverse' % (x,) \
+                    if fam in EIGEN else 'logpdf(%r | %r)' % P[j]
+                bad = (op, '%s: after %s, %s is %r on the object that answered the same queries before, %r on a '
+                           'never-queried object with the same current settings %r (all answers: %r / %r)' % (
+                               fam, text[:200], what, a, b, _settings(T), got[:6], want[:6]))
+                break
+        if len(got) != len(want) and bad is None:
+            bad = (op, '%s: after %s the object that answered queries before and a never-queried object with the '
+                       'same settings behave differently: %r / %r' % (fam, text[:200], got[:3], want[:3]))
+        if bad:
+            break
+    stats['settings_history_units'] = stats.get('settings_history_units', 0) + 1
+    stats['hist:interleaved-queries:%s' % fam] = stats.get('hist:interleaved-queries:%s' % fam, 0) + 1
+    mine = []
+    if bad:
+        mine.append(('%s:stale-density-after-%s' % (fam, OP_GROUP[bad[0]]), bad[1],
+                     dict(describe(fam, R, start), kind='interleaved-queries', step=bad[0])))
+    else:
+        # the law of the jumps of the object as it is now, memo included
+        live = _live_doms(R, kind, names, ctx['doms'])
+        law, _, _ = _history_law(fam, R, kind, names, live, rng, unit, stats)
+        for key, text, payload in law:
+            if key not in KNOWN_SITE_KEYS:
+                payload = dict(payload, check=key)
+                key = '%s:stale-density-after-%s' % (fam, OP_GROUP[seq[-1]])
+            mine.append((key, text, payload))
+    for key, text, payload in mine:
+        payload = dict(payload)
+        payload['history'] = steps
+        payload['history_kind'] = 'interleaved-queries'
+        payload['settings_after_history'] = _settings(R)
+        if key not in KNOWN_SITE_KEYS:
+            text = '[history interleaved-queries: the same %d point pairs asked after every step: %s] %s' % (
+                len(P), ' ; '.join(steps[1:])[:900], text)
+        findings.append((key, text, payload))
+
+
 # --------------------------------------------------------------------------
 # one unit of work (picklable: runs in a worker process)
 # --------------------------------------------------------------------------
+
+def _raised_in_repo(e):
+    import os
+    import traceback
+    repo = os.path.realpath(common.REPO) + os.sep
+    fr = traceback.extract_tb(e.__traceback__)
+    return bool(fr) and os.path.realpath(fr[-1].filename).startswith(repo)
+
 
 def run_unit(unit):
     """unit = dict(kind=..., family=..., seed=..., N=..., ...) -> (findings, stats)"""
@@ -2251,7 +2529,10 @@ def run_unit(unit):
             elif unit['kind'] == 'adaptive-history':
                 history_with_adaptation(fam, unit['seed'], unit['pattern'], unit['nparams'], findings, stats)
             elif unit['kind'] == 'settings-history':
-                settings_history_unit(unit, findings, stats)
+                if unit['hist'] == 'interleaved-queries':
+                    interleaved_unit(unit, findings, stats)
+                else:
+                    settings_history_unit(unit, findings, stats)
             else:
                 p0, names, doms, kind = build(fam, rng, unit['nparams'], unit.get('adapt_steps', 0),
                                               unit.get('pattern', 'AR'), unit.get('successive'),
@@ -2290,7 +2571,40 @@ def run_unit(unit):
     except (Runaway, KeyError) as e:
         stats['machinery_trouble'] = stats.get('machinery_trouble', 0) + 1
         stats.setdefault('trouble', []).append('%s %r: %r' % (fam, unit, e))
-    except ValueError as e:
+    except Exception as e:
+        if isinstance(e, ValueError) and 'NaN acceptance' in str(e):
+            pass
+        elif unit.get('kind') == 'settings-history':
+            # a history the unchanged code goes through could not be driven (the real code raised on a
+            # public call, or the object is not built the way this harness reads it): not a crash of
+            # the check; props/C02.py reports units that could not be driven
+            import traceback
+            fr = traceback.extract_tb(e.__traceback__)[-1]
+            stats['machinery_trouble'] = stats.get('machinery_trouble', 0) + 1
+            stats.setdefault('trouble', []).append('%s history %s (unit seed %d): %r at %s:%d in %s' % (
+                fam, unit.get('hist'), unit['seed'], e, fr.filename, fr.lineno, fr.name))
+            stats['units'] = 1
+            stats['family:' + fam] = 1
+            for k_ in ('_strict', '_pending', '_disp', '_az'):
+                stats.pop(k_, None)
+            return findings, stats
+        elif isinstance(e, (AttributeError, TypeError, IndexError, AssertionError)) and not _raised_in_repo(e):
+            # the harness itself could not read the object (a private attribute it looks at was renamed,
+            # a value has another shape): the unit was not driven; reported by props/C02.py as machinery
+            # that no longer checks, not as a crash of the check.  Exceptions raised inside the code under
+            # test keep propagating (run_check.py reports them).
+            import traceback
+            fr = traceback.extract_tb(e.__traceback__)[-1]
+            stats['machinery_trouble'] = stats.get('machinery_trouble', 0) + 1
+            stats.setdefault('trouble', []).append('%s unit %r: %r at %s:%d in %s' % (
+                fam, {k_: unit[k_] for k_ in ('kind', 'seed', 'N') if k_ in unit}, e, fr.filename, fr.lineno, fr.name))
+            for k_ in ('_strict', '_pending', '_disp', '_az'):
+                stats.pop(k_, None)
+            stats['units'] = 1
+            stats['family:' + fam] = 1
+            return findings, stats
+        else:
+            raise
         if 'NaN acceptance' in str(e):
             # a real chain died because a reported density was NaN at a point its own jump produced
             findings.append(('%s:nan-acceptance' % fam,
